@@ -128,13 +128,36 @@ def fixup(case):
             del ops[i]
     c = dict(case)
     c["ops"] = ops
+    if "buf" in c:
+        # small mock request buffer: keep it only while no client Send can block on it (list order is the start
+        # order and every Send here waits), and make the CloseSend that meets a full channel no-wait
+        buf, inflight, closed, ok = c["buf"], 0, False, True
+        for o in ops:
+            if o["s"] == "c" and o["a"] == "send" and not closed:
+                if o.get("nw") or inflight >= buf:
+                    ok = False
+                    break
+                inflight += 1
+            elif o["s"] == "c" and o["a"] == "close" and not closed:
+                closed = True
+                if inflight >= buf:
+                    o["nw"] = True
+                    o["d"] = max(o.get("d", 0), 10)
+                inflight += 1
+            elif o["s"] == "h" and o["a"] == "recv" and inflight > 0:
+                inflight -= 1
+            elif o["s"] == "h" and o["a"] == "ret" and not closed:
+                ok = False      # sends racing the return may block on a small buffer
+                break
+        if not ok:
+            del c["buf"]
     return c
 
 
 # --------------------------------------------------------------------------- generator
 def gen_script(rng, tier):
-    style = rng.choices(["echo", "burst", "mixed", "closefirst", "early_ret", "misuse", "free", "big"],
-                        [18, 12, 25, 10, 12, 12, 8, 3])[0]
+    style = rng.choices(["echo", "burst", "mixed", "closefirst", "early_ret", "misuse", "free", "big", "fullbuf"],
+                        [18, 12, 25, 10, 12, 12, 8, 3, 2.5])[0]
     ops = []
     pid = [0, 0]
 
@@ -276,6 +299,33 @@ def gen_script(rng, tier):
             else:
                 a = seq_h[j]; j += 1
                 {"send": hsend, "recv": hrecv, "ret": ret}[a](nw=True)
+    elif style == "fullbuf":
+        # mock only: the request channel has a small capacity; the client fills it exactly while the handler is
+        # gated, then closes its sending side (CloseSend may block on the full channel, so it is no-wait and the
+        # handler is released afterwards); the handler must then see every request followed by end-of-stream.
+        buf = rng.choice([0, 1, 2, 2, 10])
+        if buf > 0:
+            for _ in range(rng.choice([0, 0, 1, 3])):
+                csend(); hrecv()
+                if rng.random() < 0.5:
+                    hsend(); crecv()
+        for _ in range(buf):
+            csend()
+        cclose(nw=True, d=rng.choice([10, 20, 30]))
+        for _ in range(buf + 1):
+            hrecv()
+        if rng.random() < 0.5:
+            hrecv()
+        for _ in range(rng.randrange(0, 3)):
+            hsend()
+        ret()
+        for _ in range(rng.randrange(1, 5)):
+            crecv()
+        if rng.random() < 0.4:
+            csend()
+        for o in ops:
+            o.setdefault("d", 0)
+        return {"ops": ops, "style": style, "buf": buf}
     elif style == "big":
         for _ in range(rng.randrange(1, 3)):
             csend(big=True); hrecv(); hsend(big=True); crecv()
@@ -320,6 +370,8 @@ def gen_cases(rng, tier, n):
             continue
         # the same script on several transports (always mock + one or two others)
         ts = ["mock"] + rng.sample(TRANSPORTS[1:], rng.choice([1, 2, 2, 4]))
+        if "buf" in sc:
+            ts = ["mock"]
         for t in ts:
             c = json.loads(json.dumps(sc))
             c["t"] = t
@@ -445,6 +497,8 @@ def nontrivial(case, r):
 
 def histogram(case, r):
     ks = ["t=" + case["t"], "style=" + case.get("style", "?")]
+    if "buf" in case:
+        ks.append("mock_request_buffer=%d" % case["buf"])
     cops, hops = split_sides(case)
     ret = [o for o in hops if o["a"] == "ret"][0]
     ks.append("ret_kind=%d" % ret.get("e", 0))
